@@ -647,8 +647,9 @@ def overlap_cases():
 def plan(tier, seed):
     seeds = common.seeds_for(tier, seed, quick=(0,), thorough=(0, 1))
     jobs = [{"name": "terms", "mode": "compiled", "hashseed": seed % 2 ** 32, "nproc": 4, "timeout": 3000, "args": {"what": "terms", "tier": tier}}]
-    runs = [("W-mix", "mix", 2), ("W-nest", "nest", 2), ("W-label", "label", 2), ("W-flat", "tiny", 4)] if tier == "quick" else \
-        [("W-mix", "mix", 2), ("W-nest", "nest", 2), ("W-label", "label", 2), ("W-flat", "tiny", 6), ("W-nest-4", "tiny", 5), ("W-nest-4", "nest", 3)]
+    # W-deep: targets three levels below the copied container
+    runs = [("W-mix", "mix", 2), ("W-nest", "nest", 2), ("W-label", "label", 2), ("W-flat", "tiny", 4), ("W-deep", "tiny", 3)] if tier == "quick" else \
+        [("W-deep", "nest", 2), ("W-deep", "tiny", 4), ("W-mix", "mix", 2), ("W-nest", "nest", 2), ("W-label", "label", 2), ("W-flat", "tiny", 6), ("W-nest-4", "tiny", 5), ("W-nest-4", "nest", 3)]
     for hs in seeds:
         for wname, alpha, depth in runs:
             jobs.append({"name": f"bfs:{wname}:{alpha}:d{depth}:seed{hs}", "mode": "compiled", "hashseed": hs, "nproc": 4 if tier == "quick" else 8,
